@@ -184,6 +184,13 @@ class FileBorrowers(object):
                                        [()]):
             for want_texts, has_texts in itertools.product([False, True], repeat=2):
                 yield {'b': block['b'], 'present': list(present), 'want': want_texts, 'has': has_texts}
+            if len(present) == 1:
+                # flavours are truth values on both sides; a directory that doubles as a MIB source has an .index naming the
+                # ASN.1 file, which is no transformed copy
+                for want_texts, has_texts in (('yes', True), (True, 'yes'), (1, True), (True, 1), (0, False), (False, None), ('', 0)):
+                    yield {'b': block['b'], 'present': list(present), 'want': want_texts, 'has': has_texts}
+                yield {'b': block['b'], 'present': list(present), 'want': False, 'has': False, 'index': '.txt'}
+                yield {'b': block['b'], 'present': list(present), 'want': False, 'has': False, 'index': '.py' if block['b'] == 'py' else '.json'}
 
     def run_case(self, case):
         from pysmi.borrower.pyfile import PyFileBorrower
@@ -195,6 +202,13 @@ class FileBorrowers(object):
             for i in case['present']:
                 with open(os.path.join(d, 'FOO-MIB' + EXTS[i]), 'wb') as f:
                     f.write(payload(EXTS[i]).encode('utf-8'))
+            own_ext = '.py' if case['b'] == 'py' else '.json'
+            if case.get('index'):
+                # the indexed file always exists; it is a candidate only when it carries one of the borrower's extensions
+                with open(os.path.join(d, 'indexed' + case['index']), 'wb') as f:
+                    f.write(payload('indexed' + case['index']).encode('utf-8'))
+                with open(os.path.join(d, '.index'), 'w') as f:
+                    f.write('FOO-MIB indexed%s\n' % case['index'])
             reader = FileReader(d).setOptions(lowcaseMatching=False)
             if case['b'] == 'py':
                 b = PyFileBorrower(reader, genTexts=case['has'])
@@ -210,15 +224,17 @@ class FileBorrowers(object):
             except Exception as exc:
                 return 'foreign', [('C19|file-borrowers|%s|foreign-exception|%s' % (case['b'], type(exc).__name__), repr(case))], 1
             allowed = [None]
-            if case['want'] == case['has']:
+            if bool(case['want']) == bool(case['has']):
                 hits = [payload(EXTS[i]) for i in case['present'] if EXTS[i] in own]
+                if case.get('index') == own_ext:
+                    hits = [payload('indexed' + own_ext)]     # an index entry takes precedence - among the borrower's own files
                 allowed = hits or [None]
             vs = []
             if got not in allowed:
                 vs.append(('C19|file-borrowers|%s|served-%s|flavour-%s' % (
                     case['b'], 'nothing' if got is None else 'ext:' + got.split('\r\n')[0].replace('content of FOO-MIB', '')
                     if got.startswith('content of FOO-MIB') and got in [payload(e) for e in EXTS] else 'altered-content',
-                    'match' if case['want'] == case['has'] else 'mismatch'), '%r -> %r, allowed %r' % (case, got, allowed)))
+                    'match' if bool(case['want']) == bool(case['has']) else 'mismatch'), '%r -> %r, allowed %r' % (case, got, allowed)))
             return repr(got), vs, 1
         finally:
             shutil.rmtree(d, ignore_errors=True)
